@@ -34,6 +34,7 @@ def run_outcome(case, log):
 class C14(core.Prop):
     id = "C14"
     drivers = ["s4u_interp"]
+    ready = True
     sizes = {"quick": 600, "thorough": 20000}
     max_workers = 6
     technique = ("property-based testing (Hypothesis): terminal outcome of real runs under each context factory must belong to the "
